@@ -130,6 +130,13 @@ pub fn answer(req: &str) -> String {
             Some(src) => asm_answer(&src),
             None => "BADREQ".into(),
         },
+        "asm2" => {
+            let mut it = rest.trim().splitn(2, ' ');
+            match (it.next().and_then(dec), it.next().and_then(|x| dec(x.trim()))) {
+                (Some(a), Some(b)) => format!("{} || {}", asm_answer(&a), asm_answer(&b)),
+                _ => "BADREQ".into(),
+            }
+        }
         _ => "BADREQ".into(),
     }
 }
